@@ -1,22 +1,41 @@
-(* C10 RobotWarehouse (PARTIAL): RandomGenerator is modelled over its explicit draws (gen: agent cells without replacement,
-   directions, request queue without replacement; correspondence-checked on every reset).  Proved: the well-formedness checker
-   gen_wf_b, run by the harness on every generated state, is sound: it implies the full invariant Inv (layers = tables, agents
-   on pairwise distinct cells inside the grid, mask = mask of the state), step_count 0, nobody carries, every shelf on a
-   non-highway (shelf) cell, the request queue made of distinct valid shelf ids with the requested flags = queue membership.
-   Missing: the proof that [gen c cells dirs q] satisfies gen_wf_b for ALL valid draws (only evaluated, by vm_compute below
-   and by the harness on the draws recovered from the implementation's reset states). *)
-Require Import JV.Base.Prelude JV.Base.JaxIndex JV.Base.Codec JV.Base.TimeStep JV.Model.RobotWarehouse JV.Proofs.RobotWarehouse_lib JV.Proofs.RobotWarehouse JV.Proofs.RobotWarehouse_Step JV.Proofs.RobotWarehouse_Check.
-Theorem C10_RobotWarehouse_wf_checker_partial c s : gen_wf_b c s = true ->
+(* C10 RobotWarehouse: generated instances are well-formed.  RandomGenerator is modelled over its explicit draws (gen: agent
+   cells by choice without replacement + unravel_index, directions, request queue by choice without replacement among the
+   shelf ids; correspondence-checked on every reset).  Proved for ALL valid draws (valid_gen_draws: num_agents distinct flat
+   cell indices inside the grid, directions in 0..3, request_queue_size distinct shelf ids) and all sizes (shelf_rows,
+   shelf_columns, column_height >= 0, any number of agents): the generated state satisfies the full invariant Inv (both grid
+   layers = the agent / shelf tables as bijections, agents on pairwise distinct cells inside the grid, mask = mask of the
+   state, queue of distinct valid shelf ids with requested flags = queue membership), step_count 0, nobody carries, the
+   shelves are exactly the non-highway cells of the layout in row-major order.  Also in boolean form: the well-formedness
+   checker gen_wf_b that the harness runs on every reset state of the implementation returns true on the model's output,
+   and that checker is sound (and Inv_b complete) for the declarative statement. *)
+Require Import JV.Base.Prelude JV.Base.JaxIndex JV.Base.Codec JV.Base.TimeStep JV.Model.RobotWarehouse JV.Proofs.RobotWarehouse_lib JV.Proofs.RobotWarehouse JV.Proofs.RobotWarehouse_Step JV.Proofs.RobotWarehouse_Check JV.Proofs.RobotWarehouse_Gen.
+Theorem C10_RobotWarehouse_gen_wf c cells dirs q :
+  cfg_ok c -> valid_gen_draws c cells dirs q = true ->
+  let s := gen c cells dirs q in
+  Inv c s /\ cnt s = 0
+  /\ (forall a, In a (agents s) -> acar a = false)
+  /\ (forall i j, 0 <= i < nag c -> 0 <= j < nag c -> apos (agents s) i = apos (agents s) j -> i = j)
+  /\ map (fun sh => (sx sh, sy sh)) (shelves s) = shelf_cells c
+  /\ (forall sh, In sh (shelves s) -> highway_b c (sx sh) (sy sh) = false)
+  /\ NoDup (queue s) /\ (forall j, In j (queue s) -> 0 <= j < zlen (shelves s))
+  /\ zlen (shelves s) = nshelves c.
+Proof. exact (gen_wf c cells dirs q). Qed.
+Theorem C10_RobotWarehouse_gen_wf_checker c cells dirs q :
+  cfg_ok c -> valid_gen_draws c cells dirs q = true -> gen_wf_b c (gen c cells dirs q) = true.
+Proof. exact (gen_wf_bool c cells dirs q). Qed.
+Theorem C10_RobotWarehouse_wf_checker c s : gen_wf_b c s = true ->
   Inv c s /\ cnt s = 0
   /\ (forall a, In a (agents s) -> acar a = false)
   /\ (forall i j, 0 <= i < nag c -> 0 <= j < nag c -> apos (agents s) i = apos (agents s) j -> i = j)
   /\ (forall sh, In sh (shelves s) -> highway_b c (sx sh) (sy sh) = false)
   /\ NoDup (queue s) /\ (forall j, In j (queue s) -> 0 <= j < zlen (shelves s)).
 Proof. exact (gen_wf_b_sound c s). Qed.
-Print Assumptions C10_RobotWarehouse_wf_checker_partial.
+Print Assumptions C10_RobotWarehouse_gen_wf.
+Print Assumptions C10_RobotWarehouse_gen_wf_checker.
+Print Assumptions C10_RobotWarehouse_wf_checker.
 Example C10_RobotWarehouse_nonvacuous :
-  valid_gen_draws ex_c [5; 1] [1; 2] [0] = true /\ gen_wf_b ex_c ex_s0 = true
+  cfg_ok ex_c /\ valid_gen_draws ex_c [5; 1] [1; 2] [0] = true /\ gen_wf_b ex_c ex_s0 = true
   /\ shelf_cells ex_c = [(1, 1); (1, 2)] /\ goals ex_c = [(1, 5); (2, 5)]
   (* two agents drawn on the same cell are not valid draws, and the result is rejected *)
   /\ valid_gen_draws ex_c [5; 5] [1; 2] [0] = false /\ gen_wf_b ex_c (gen ex_c [5; 5] [1; 2] [0]) = false.
-Proof. vm_compute. repeat split; reflexivity. Qed.
+Proof. split; [unfold cfg_ok, ex_c; cbn; lia|]. vm_compute. repeat split; reflexivity. Qed.
